@@ -321,6 +321,7 @@ namespace vf
     uint64_t case_limit_ms = 20000;  // per-case wall limit
     uint64_t deadline_ms = 0;        // absolute (now_ms based); 0 = none
     size_t rlimit_as_mb = 0;         // address-space limit for children (0 = none)
+    uint64_t max_dead_cases = 0;     // stop handing out new work after this many aborted/hung cases (0 = never)
     // maps (unit, case text, what) of a dead child to a finding key
     std::function<std::string(uint64_t, const std::string &, const std::string &)> crash_key;
   };
@@ -340,6 +341,7 @@ namespace vf
   {
     uint64_t units_done = 0, units_total = 0;
     bool exhaustive = true;
+    bool stopped_early = false; // max_dead_cases reached
   };
 
   inline std::string read_fd(int fd, size_t max = size_t(1) << 30)
@@ -474,6 +476,17 @@ namespace vf
     {
       if (opt.deadline_ms && now_ms() > opt.deadline_ms)
         deadline_hit = true;
+      if (opt.max_dead_cases && S.sink.counters["cases_aborted_or_hung"] >= opt.max_dead_cases && !rr.stopped_early)
+      {
+        rr.stopped_early = true;
+        deadline_hit = true;
+        // drop queued resumes (confirm jobs are kept: they decide whether a hang is real)
+        std::vector<Job> keep;
+        for (auto &j : queue)
+          if (j.confirm)
+            keep.push_back(j);
+        queue.swap(keep);
+      }
       while ((int)running.size() < opt.jobs)
       {
         if (!queue.empty())
@@ -567,7 +580,8 @@ namespace vf
             }
             S.sink.counters["cases_aborted_or_hung"] += 1;
             // resume the unit after the offending case, then the rest of the batch
-            queue.push_back(Job{u, c.last, k, 0, false, "", ""});
+            if (!rr.stopped_early)
+              queue.push_back(Job{u, c.last, k, 0, false, "", ""});
             done_units += (u - c.first);
           }
         }
